@@ -416,7 +416,7 @@ pub fn run(cfg: &RunCfg) -> CheckReport {
     }
     let n_sweep = atoms.len() * fillers.len();
     let ex = explore(cfg, n_sweep + (long.len() + 15) / 16, |shard, acc| {
-        let mut one = |text: &[u8], acc: &mut Acc| {
+        let one = |text: &[u8], acc: &mut Acc| {
             match check_bytes(text) {
                 Ok((nt, ntok, fp)) => {
                     if acc.want_sample() {
